@@ -317,7 +317,70 @@ R.add('L4.5', l45, lambda tier: [dict(n=n) for n in ((0, 1, 2) if tier == 'quick
       expect=['every delivered message is handed out exactly once', 'the inbox is empty after it was read'],
       bounds='<= 2 (thorough 4) messages of <= 50 opaque bytes')
 
+
+# ------------------------------------------------------------------ L4.6 the server hands each message to the handler once
+def l46(nmsg):
+    """real server loop: a connected client sends a batch of messages in one datagram; the handler raises on a symbolic
+    subset of them; the client keeps talking (keep-alives) for several ticks.  However the handler behaves, no message
+    is handed to it twice, and no message is handed to it that the client did not send."""
+    from . import loop, c10
+    A = ('10.0.0.1', 5001)
+    pa = None
+    boom = [bool(symbool('handler_raises_on%d' % i)) for i in range(nmsg)]
+
+    def script(world, tick):
+        nonlocal pa
+        if tick == 1:
+            pa = loop.Peer(world, A)
+            pa.c._sendClientHello()
+            world.inject(pa.emit(), A)
+            return
+        if tick == 4 and pa.c.status == Status.CONNECTED:
+            pa.absorb()
+            for i in range(nmsg):
+                p, L = rope.blob('m%d' % i, 1, 40)
+                pa.c.send(p, RetryMode.NONE, None)
+                pa.sent_payloads.append(p)
+            raw = pa.emit()
+            if raw is not None:
+                world.inject(raw, A)
+            return
+        # later: acks / keep-alives, and one more message two ticks after the batch
+        c10.act(world, pa, 'app' if tick == 6 else 'reply', tick)
+
+    world = loop.World(8, script)
+
+    def handle_message(client, seqnum, msg):
+        world.handler.events.append(('message', client, seqnum, msg))
+        n = len([e for e in world.handler.events if e[0] == 'message'])
+        if n - 1 < nmsg and boom[n - 1]:
+            raise loop.HandlerBoom('message %d' % (n - 1))
+    world.handler.handle_message = handle_message
+    world.run()
+    check(world.escaped is None, 'no exception leaves the server loop', escaped=repr(world.escaped))
+    msgs = [e for e in world.handler.events if e[0] == 'message']
+
+    def same(a, b):
+        return a is b or (rope.isrope(a) and rope.isrope(b) and rope.full_view_blob(a) is rope.full_view_blob(b)) or \
+            (isinstance(a, bytes) and isinstance(b, bytes) and a == b)
+    for p in pa.sent_payloads:
+        n = sum(1 for e in msgs if same(e[3], p))
+        check(n <= 1, 'a message is handed to the handler at most once, whatever the handler does with its neighbours')
+    for e in msgs:
+        check(any(same(e[3], p) for p in pa.sent_payloads), 'the handler only sees messages the client sent')
+    check(len(pa.sent_payloads) == nmsg + 1, 'the client was connected and sent its batch (and one more message later)')
+
+
+R.add('L4.6', l46, lambda tier: [dict(nmsg=(3 if tier == 'quick' else 4))],
+      desc='real server loop: batch of messages in one datagram, handler raising on any subset, client keeps sending keep-alives: '
+           'each message handed to the handler at most once',
+      expect=['a message is handed to the handler at most once, whatever the handler does with its neighbours',
+              'the client was connected and sent its batch (and one more message later)'],
+      bounds='3 (thorough 4) messages of 1..40 bytes in one datagram; 2^n handler-exception patterns; 8 loop ticks')
+
 import sys as _sys  # noqa: E402
+from . import loop as _loop, c10 as _c10, c11 as _c11  # noqa: E402
+R.lemmas['L4.6'].replay = generic_replay(l46, [proto, _loop, _c10, _sys.modules[__name__]], patches=_c11.LOOPPATCH)
 for _l in R.lemmas.values():
     if _l.replay is None:
         _l.replay = generic_replay(_l.func, [proto, _sys.modules[__name__]])
